@@ -346,15 +346,7 @@ def _check_main(ctx, res) -> None:
             continue
         fnode = common.inlined(idx, f) if f.qualname in REQUIRED else f.node
         regs = []  # (call, events, filtered, registered)
-        for c in calls_in(fnode):
-            if idx.resolve(f.unit.modname, c.func) != ro.qualname:
-                continue
-            passed = {}
-            for i, a in enumerate(c.args):
-                if i < len(ro_params):
-                    passed[ro_params[i]] = a
-            for k in c.keywords:
-                passed[k.arg] = k.value
+        for c, passed in _observer_constructions(idx, f.unit.modname, fnode, ro.qualname, ro_params):
             events = {e for e in EVENTS if e in passed and not (isinstance(passed[e], ast.Constant) and passed[e].value is None)}
             # wrapped / registered?
             var = None
@@ -694,6 +686,44 @@ def _check_main(ctx, res) -> None:
     res.floor("R13.9", "object-lifetime caches in the object model", n139, 4)
 
 
+def _observer_constructions(idx, modname: str, fnode, ro_qual: str, ro_params):
+    """[(call, {event: callback expression})] for every observer built in fnode: `ResourceObserver(changed=cb, ...)` itself, or a
+    call of a function of the module that only wraps it -- `def _observer_of(callback, *events): return
+    ResourceObserver(**dict.fromkeys(events, callback))` called as `_observer_of(cb, "created", "moved")`"""
+    out = []
+    for c in calls_in(fnode):
+        if idx.resolve(modname, c.func) == ro_qual:
+            passed = {}
+            for i, a in enumerate(c.args):
+                if i < len(ro_params):
+                    passed[ro_params[i]] = a
+            for k in c.keywords:
+                if k.arg:
+                    passed[k.arg] = k.value
+            out.append((c, passed))
+            continue
+        if isinstance(c.func, ast.Name):
+            w = idx.functions.get(f"{modname}.{c.func.id}")
+            if w is None or w.node.args.vararg is None:
+                continue
+            rets = [r.value for r in walk_local(w.node) if isinstance(r, ast.Return) and r.value is not None]
+            if len(rets) != 1 or not (isinstance(rets[0], ast.Call) and idx.resolve(modname, rets[0].func) == ro_qual):
+                continue
+            star = [k.value for k in rets[0].keywords if k.arg is None]
+            if len(star) != 1 or not (isinstance(star[0], ast.Call) and (dotted(star[0].func) or "").endswith("fromkeys") and len(star[0].args) == 2
+                                      and isinstance(star[0].args[0], ast.Name) and star[0].args[0].id == w.node.args.vararg.arg and isinstance(star[0].args[1], ast.Name)):
+                continue
+            ps = [a.arg for a in w.node.args.args]
+            cbp = star[0].args[1].id
+            if cbp not in ps or ps.index(cbp) >= len(c.args):
+                continue
+            cb = c.args[ps.index(cbp)]
+            events = [a.value for a in c.args[len(ps):] if isinstance(a, ast.Constant) and isinstance(a.value, str)]
+            if len(events) == len(c.args[len(ps):]):
+                out.append((c, {e: cb for e in events}))
+    return out
+
+
 def _structure_observer_rule(ctx, res) -> None:
     """R13.15: what a module CONCLUDED (inferred objects, resolved imports) can depend on any resource of the project: `import m`
     resolves differently once some file is created as, moved to, moved away from or removed at `m.py` -- whether or not that
@@ -725,21 +755,22 @@ def _structure_observer_rule(ctx, res) -> None:
             if isinstance(x, ast.Assign) and len(x.targets) == 1 and isinstance(x.targets[0], ast.Name):
                 assigned.setdefault(x.targets[0].id, []).append(x)
         filtered = {a.id for c in calls_in(m.node) if call_name(c) == "FilteredResourceObserver" for a in c.args if isinstance(a, ast.Name)}
+        ro_ = idx.need_class("rope.base.resourceobserver.ResourceObserver")
+        built = {id(c): passed for c, passed in _observer_constructions(idx, m.unit.modname, m.node, ro_.qualname, param_names(ro_.methods["__init__"].node)[1:])}
         for x in walk_local(m.node):
-            if not (isinstance(x, ast.Assign) and isinstance(x.value, ast.Call) and call_name(x.value) == "ResourceObserver" and isinstance(x.targets[0], ast.Name)):
+            if not (isinstance(x, ast.Assign) and isinstance(x.value, ast.Call) and id(x.value) in built and isinstance(x.targets[0], ast.Name)):
                 continue
             name = x.targets[0].id
             if name in filtered or not any(call_name(c) == "add_observer" and c.args and isinstance(c.args[0], ast.Name) and c.args[0].id == name for c in calls_in(m.node)):
                 continue
             events = {}
-            for k in x.value.keywords:
-                v = k.value
+            for karg, v in built[id(x.value)].items():
                 if isinstance(v, ast.Name):  # a callback held in a local: the binding in force at the construction
                     before = [b for b in assigned.get(v.id, []) if b.lineno < x.lineno]
                     if before:
                         v = max(before, key=lambda b: b.lineno).value
                 if is_self_attr(v) and reaches_reset(v.attr):
-                    events[k.arg] = v.attr
+                    events[karg] = v.attr
             if events:
                 n += 1
                 if best is None or len(events) > len(best[1]):
